@@ -660,3 +660,38 @@ theorem inv_reachable (cap n : Nat) (s : St) (h : TS.Reachable step? (init cap n
   TS.invariant_reachable step? SInv (init cap n) (inv_init cap n) (fun s op s' => step_inv s s' op) s h
 
 end FileD.Pool.Std
+
+namespace FileD.Pool
+
+theorem set_cases {α} (l : List α) (r0 r : Nat) (new pc pc' : α)
+    (h' : (l.set r0 new)[r]? = some pc') (h : l[r]? = some pc) : (r0 = r ∧ pc' = new) ∨ pc' = pc := by
+  by_cases e : r0 = r
+  · subst e
+    rw [get_set_self l r0 pc new h] at h'
+    exact Or.inl ⟨rfl, (Option.some.inj h').symm⟩
+  · rw [List.getElem?_set_ne e] at h'
+    rw [h] at h'; exact Or.inr (Option.some.inj h').symm
+
+/-- a reader inside `get` -/
+def lmInGet : LM.Pc → Bool
+  | .want | .over | .slow | .wantLock | .locked | .willWait | .parked | .woken | .unlocking | .postUnlock => true
+  | _ => false
+
+theorem lmInGet_wake (pc : LM.Pc) : lmInGet (LM.wake pc) = lmInGet pc := by cases pc <;> rfl
+
+
+/-- a reader inside the standard pool's `get` -/
+def stdInGet : Std.Pc → Bool
+  | .tkt | .try_ .. | .slowInc _ | .wantLock _ | .willWait _ | .parked _ | .woken _ | .unlocking _
+  | .postUnlock _ | .taken _ | .out _ => true
+  | _ => false
+
+theorem stdInGet_wake (pc : Std.Pc) : stdInGet (Std.wake pc) = stdInGet pc := by cases pc <;> rfl
+
+theorem stdInGet_casFail (x c t : Nat) : stdInGet (Std.casFail x c t) = true := by
+  unfold Std.casFail; split
+  · rfl
+  · split <;> rfl
+
+
+end FileD.Pool
